@@ -61,7 +61,7 @@ def gen(chk):
         elif r < 0.4 and users:
             u, p = rng.choice(users)
             p0 = [pp for uu, pp in users if uu == u][0]
-            p2 = p0 + b"x"
+            p2 = p0 + b"x" * rng.choice([1, 1, 2, 255, 256, 257, 512, 768, 65536]) if rng.random() < 0.7 else p0[:-1] if p0 else b"\x00"
             v = b"Basic " + base64.b64encode(u + b":" + p2)
             exp = 0 if b":" not in u else None
         elif r < 0.5:
@@ -82,6 +82,34 @@ def gen(chk):
                 v = rng.choice([b"Basic", b"Basic "]) + v
         cases.append("basic %s %s %s" % (users_arg(users), hexs(realm), "NONE" if v is None else hexs(v)))
         meta.append(("basic", users, realm, v, exp))
+    # protected and public methods sharing paths, through the router
+    nr = 1500 if chk.tier == "quick" else 20000
+    for _ in range(nr):
+        users = [(b"u", b"p"), (b"admin", b"s3:cret")][:rng.randint(1, 2)]
+        realm = rng.choice([b"", b"R"])
+        paths = [b"/a", b"/a/:id", b"/b"]
+        regs = []
+        for hid in range(rng.randint(1, 5)):
+            regs.append((rng.choice([b"GET", b"PUT", b"DELETE"]), rng.choice(paths), hid, rng.random() < 0.5))
+        # effective table: first registration of (path, method) wins
+        eff = {}
+        for m_, p_, h_, prot in regs:
+            eff.setdefault((p_, m_), (h_, prot))
+        m_, p_, h_, prot = rng.choice(regs)
+        h_, prot = eff[(p_, m_)]
+        tgt = p_.replace(b":id", b"42")
+        kind = rng.choice(["good", "bad", "none"])
+        if kind == "good":
+            u, pw = rng.choice(users); v = b"Basic " + base64.b64encode(u + b":" + pw)
+        elif kind == "bad":
+            v = b"Basic " + base64.b64encode(b"u:wrong")
+        else:
+            v = None
+        chall = b"Basic" if not realm else b'Basic realm="' + realm + b'"'
+        exp = ("H %d" % h_) if (not prot or kind == "good") else "401 " + hexs(chall)
+        rs = ",".join("%s|%s|%d|%s" % (hexs(a), hexs(b), c, "0" if d else "-") for a, b, c, d in regs)
+        cases.append("routeauth %s %s %s %s %s %s" % (rs, hexs(m_), hexs(tgt), "NONE" if v is None else hexs(v), users_arg(users), hexs(realm)))
+        meta.append(("route", exp))
     return cases, meta
 
 
@@ -95,7 +123,7 @@ def run(chk):
         dist[kind] = dist.get(kind, 0) + 1
         crashed = i.startswith("CRASH") or i.startswith("THROW") or i.startswith("TIMEOUT")
         if crashed:
-            sig = {"dec": "decode-memory-error", "rt": "decode-memory-error", "enc": "encode-memory-error", "basic": "authorization-value-throws-or-crashes"}[kind]
+            sig = {"dec": "decode-memory-error", "rt": "decode-memory-error", "enc": "encode-memory-error", "basic": "authorization-value-throws-or-crashes", "route": "protected-route-throws"}[kind]
             if kind == "basic" and "substr" in i:
                 sig = "authorization-scheme-only-throws"
             chk.violation("exception / sanitizer report / crash: " + i[:160], {"case": c, "impl": i}, True, sig)
@@ -114,6 +142,12 @@ def run(chk):
             exp = b"\n".join(lines) + body[len(nopad):]
             if unhex(i) != exp:
                 chk.violation("base64 encoding differs from RFC 4648 alphabet/padding", {"case": c, "impl": i, "expected": hexs(exp)}, True, "encode-wrong")
+        elif kind == "route":
+            if i.startswith("H "):
+                chk.count_distinct(c)
+            if not i.startswith(md[1]):
+                chk.violation("protected route: router answered %s, expected %s" % (i[:60], md[1][:60]), {"case": c, "impl": i, "expected": md[1]}, True,
+                              "handler-ran-without-valid-credentials" if i.startswith("H ") else "valid-credentials-refused-by-router")
         elif kind == "basic":
             _, users, realm, v, exp = md
             chall = b"Basic" if not realm else b'Basic realm="' + realm + b'"'
